@@ -239,6 +239,19 @@ def has_self_loop(desc):
 
 # --------------------------------------------------------------------------- one port
 
+def src_scales(net):
+    """(pscale, iscale) of gen_net.net_scales: the magnitudes potentials / currents of this network are MADE OF
+    (source voltages, source currents and their images under the network's own immittances).  A Voc / Isc /
+    Thevenin U / Norton I that is small only because large terms cancel carries rounding noise relative to
+    these, not relative to itself: every such comparison is relative to max(observed magnitudes, these) —
+    a noise floor of pscale resp. iscale times the usual relative tolerance, and no absolute floor."""
+    try:
+        ps, is_ = gen_net.net_scales(net)
+        ps = float(ps); is_ = float(is_)
+        return (ps if math.isfinite(ps) else 0.0), (is_ if math.isfinite(is_) else 0.0)
+    except Exception:
+        return 0.0, 0.0
+
 def judge_undefined(out, spec, impl, canon, op, pretty, case):
     """the exact Spec says the unit-current problem has NO solution (the port node is isolated: it hangs on
     zero-admittance branches only, or its admittances cancel exactly): the impedance is infinite.  The implementation
@@ -291,7 +304,7 @@ def judge_equivalent_isolated(ctx, out, desc, n1, n2, canon, pretty, case):
             out.count('isolated_norton_rejected:' + r[1]); continue
         if i_short is None:
             out.count('isolated_norton_unjudged'); continue
-        if not rel_close(r[1], i_short, max(abs(i_short), 1e-12), 1e-6) and not (abs(i_short) == 0 and abs(r[1]) < 1e-9):
+        if not rel_close(r[1], i_short, max(abs(i_short), src_scales(net)[1]), 1e-6):
             out.spec_fail(dict(canon, op='equivalent_sources', port_node_isolated=True, symptom='wrong_norton_current', quantity=name),
                           f'{name} of an open port is {r[1]}; the current through a short attached to the port is {i_short}', pretty,
                           impl=dict(value=r[1]), spec=dict(i_short=str(i_short)), case=case)
@@ -501,11 +514,12 @@ def check_equivalent(ctx, out, desc, n1, n2, exact, rng):
     # ---- correspondence Voc / Isc
     voc = run_impl(bpa.open_circuit_voltage, net, n1, n2)
     m_voc = model_res(drv.call('oc_voltage', net=jnet, n1=n1, n2=n2))
-    scale = 1.0
+    ps, is_ = src_scales(net)
+    scale = ps                   # what the potentials are made of (sources and their images): the noise floor of Voc
     if wp['wellposed']:
-        scale = max([abs(core.cfloat(v)) for v in wp['pot'].values()] + [1.0])
+        scale = max([abs(core.cfloat(v)) for v in wp['pot'].values()] + [ps])
     def agree(a, b):
-        if a[0] == 'ok' and b[0] == 'ok': return illc or core.close(a[1], b[1], scale, 1e-7)
+        if a[0] == 'ok' and b[0] == 'ok': return illc or rel_close(a[1], b[1], scale, 1e-7)
         if a[0] == 'err' and b[0] == 'err': return a[1] == b[1]
         return False
     out.traces_validated += 1
@@ -518,13 +532,13 @@ def check_equivalent(ctx, out, desc, n1, n2, exact, rng):
     m_isc = model_res(drv.call('sc_current', net=jnet, n1=n1, n2=n2))
     # Isc = V/Z: the float error of V (relative to the potentials' scale) is amplified by 1/|Z|
     m_z = model_res(drv.call('port_z', net=jnet, n1=n1, n2=n2))
-    iscale = scale / abs(m_z[1]) if m_z[0] == 'ok' and abs(m_z[1]) > 0 else scale
+    iscale = max(scale / abs(m_z[1]) if m_z[0] == 'ok' and abs(m_z[1]) > 0 else 0.0, is_)
     def agree_isc(a, b):
-        if a[0] == 'ok' and b[0] == 'ok': return illc or core.close(a[1], b[1], iscale, 1e-7)
+        if a[0] == 'ok' and b[0] == 'ok': return illc or rel_close(a[1], b[1], iscale, 1e-7)
         if b == ('err', 'NonFinite') and a[0] == 'ok': return True     # Z = 0 exactly, ~1e-17 in binary64: V/Z is rounding noise
         return agree(a, b)
     if wp['wellposed'] and not illz and not agree_isc(isc, m_isc):
-        if not (m_isc == ('err', 'LinAlgError') and isc[0] == 'ok' and abs(isc[1]) < 1e-9 * scale) and \
+        if not (m_isc == ('err', 'LinAlgError') and isc[0] == 'ok' and abs(isc[1]) < 1e-9 * max(scale, iscale)) and \
            not (m_isc == ('err', 'LinAlgError') and isc == ('err', 'NonFinite')):
             out.disagree('short_circuit_current', pretty, isc, m_isc)
     # ---- oracle: exact open-circuit voltage
@@ -533,7 +547,7 @@ def check_equivalent(ctx, out, desc, n1, n2, exact, rng):
     if illc: out.skip('ill_conditioned'); return
     if n1 not in wp['pot'] or n2 not in wp['pot']: return
     voc_exact = core.cfloat(wp['pot'][n1]) - core.cfloat(wp['pot'][n2])
-    if voc[0] == 'err' or not core.close(voc[1], voc_exact, scale, 1e-7):
+    if voc[0] == 'err' or not rel_close(voc[1], voc_exact, scale, 1e-7):
         out.spec_fail(dict(canon0, op='open_circuit_voltage', symptom='wrong_value' if voc[0] == 'ok' else 'raises'),
                       f'open_circuit_voltage reports {voc[1]}, exact solution gives {voc_exact}', pretty,
                       impl=dict(voc=voc), spec=dict(voc=str(voc_exact)), case=case)
@@ -554,8 +568,8 @@ def check_equivalent(ctx, out, desc, n1, n2, exact, rng):
             i_short = None
         if i_short is not None and cmath.isfinite(i_short):
             out.nontrivial(('isc', gen_net.shape(desc), facts['ideal_vs_elsewhere'], facts['zero_row_node'], facts['floating_island']))
-            iscale2 = max(abs(i_short), 1.0, iscale)
-            if isc[0] == 'err' or not core.close(isc[1], i_short, iscale2, 1e-6):
+            iscale2 = max(abs(i_short), iscale)
+            if isc[0] == 'err' or not rel_close(isc[1], i_short, iscale2, 1e-6):
                 out.spec_fail(dict(canon0, op='short_circuit_current', symptom='wrong_value' if isc[0] == 'ok' else 'raises'),
                               f'short_circuit_current reports {isc[1]}, the current through a short attached to the port is {i_short}',
                               pretty, impl=dict(isc=isc), spec=dict(i_short=str(i_short), zth=spec['z']), case=case)
@@ -584,7 +598,7 @@ def check_equivalent(ctx, out, desc, n1, n2, exact, rng):
         return
     if illz: out.skip('ill_conditioned'); return
     predicted = voc[1] * zl / (zth[1] + zl) if abs(zth[1] + zl) > 0 else complex('nan')
-    if not core.close(v_load, predicted, scale, 1e-6):
+    if not rel_close(v_load, predicted, max(scale, src_scales(netl)[0]), 1e-6):
         out.spec_fail(dict(canon0, op='thevenin_load', symptom='wrong_value'),
                       f'load {zl} sees {v_load}; Voc·Z_L/(Zth+Z_L) from the reported Voc={voc[1]}, Zth={zth[1]} is {predicted}',
                       pretty, impl=dict(voc=voc, zth=zth, v_load=v_load, zl=zl), spec=dict(zth=spec['z']), case=dict(case, zl=zl))
@@ -729,13 +743,15 @@ def check_scaled_equivalent(ctx, out, desc, n1, n2, exact, es, scales=SCALES):
         case = dict(kind='scaled_equivalent', desc=desc, n1=n1, n2=n2, exact=exact, k=k)
         pretty = dict(net=gen_net.pretty(d2), port=[n1, n2], impedance_scale=k)
         out.nontrivial(('scaled_equivalent', k, gen_net.shape(desc)))
-        checks = [('open_circuit_voltage', v, voc, vscale), ('short_circuit_current', i, voc / z0 / k, vscale / abs(z0) / k)]
+        ps, is_ = src_scales(net)
+        vref = max(vscale, ps); iref = max(vscale / abs(z0) / k, is_)
+        checks = [('open_circuit_voltage', v, voc, vref), ('short_circuit_current', i, voc / z0 / k, iref)]
         if es is not None:
             def rec(cls, f):
                 return run_impl(lambda: getattr(cls(net, n1, n2), f))
-            checks += [('TheveninEquivalentSource.U', rec(es.TheveninEquivalentSource, 'U'), voc, vscale),
+            checks += [('TheveninEquivalentSource.U', rec(es.TheveninEquivalentSource, 'U'), voc, vref),
                        ('TheveninEquivalentSource.Z', rec(es.TheveninEquivalentSource, 'Z'), k * z0, k * zs0),
-                       ('NortenEquivalentSource.I', rec(es.NortenEquivalentSource, 'I'), voc / z0 / k, vscale / abs(z0) / k),
+                       ('NortenEquivalentSource.I', rec(es.NortenEquivalentSource, 'I'), voc / z0 / k, iref),
                        ('NortenEquivalentSource.Y', rec(es.NortenEquivalentSource, 'Y'), 1 / (k * z0), 0.0)]
         bad = False
         for name, got, want, ref in checks:
@@ -812,7 +828,14 @@ def check_equivalent_records(ctx, out, es, desc, n1, n2):
             out.disagree('equivalent_sources.' + name, gen_net.pretty(desc), impl, mm)
         else:
             mv = [core.cfloat(mm['ok'][f]) for f in fields]
-            if not all(core.close(a, b, 1.0, 1e-6) for a, b in zip(impl[1], mv)):
+            ps, is_ = src_scales(net)
+            # U, I: relative to what they are made of (an exact 0 left by cancelling sources comes back as noise of
+            # that size); Z, Y: relative to themselves above the unit floor of the port system
+            def same(f, a, b):
+                if f == 'U': return rel_close(a, b, ps, 1e-6)
+                if f == 'I': return rel_close(a, b, max(is_, ps * abs(mv[1])), 1e-6)      # I = Voc · Y
+                return core.close(a, b, 1.0, 1e-6)
+            if not all(same(f, a, b) for f, a, b in zip(fields, impl[1], mv)):
                 out.disagree('equivalent_sources.' + name, gen_net.pretty(desc), impl, mm)
 
 # --------------------------------------------------------------------------- circuit level
